@@ -332,22 +332,15 @@ def make_natives(E, unit):
 
     def tod_part(kind):
         def f(ex, callee, args, m):
-            tod = civil(inst(ex, args[0]))[3]
-            if kind == "hour":
-                return VInt(smt.idiv(tod, C(3600 * 10 ** 9)))
-            if kind == "minute":
-                return VInt(smt.imod(smt.idiv(tod, C(60 * 10 ** 9)), C(60)))
-            if kind == "second":
-                return VInt(smt.imod(smt.idiv(tod, C(10 ** 9)), C(60)))
-            return VInt(smt.imod(tod, C(10 ** 9)))
+            h, mi, sec, ns = time_fields(civil(inst(ex, args[0]))[3])
+            return VInt({"hour": h, "minute": mi, "second": sec}.get(kind, ns))
         return f
 
     def n_with_time_part(kind):
         def f(ex, callee, args, m):
             y_, mo_, d_, tod = civil(inst(ex, args[0]))
             v_ = args[1].t
-            h, mi, sec, ns = (smt.idiv(tod, C(3600 * 10 ** 9)), smt.imod(smt.idiv(tod, C(60 * 10 ** 9)), C(60)),
-                              smt.imod(smt.idiv(tod, C(10 ** 9)), C(60)), smt.imod(tod, C(10 ** 9)))
+            h, mi, sec, ns = time_fields(tod)
             lim = {"hour": 24, "minute": 60, "second": 60, "nanosecond": 2 * 10 ** 9}[kind]
             if kind == "hour":
                 h = v_
@@ -478,6 +471,16 @@ def make_natives(E, unit):
         from .exec import Cell
         return VOpt(True, VRef(Cell(arr.items[pos]), ()))
 
+    def n_opt_map(ex, callee, args, m):
+        o, clos = args[0], args[1]
+        if o.val is None:
+            return VOpt(False, None)
+        r = ex.call_closure(clos, [o.val])
+        return VOpt(o.some, r)
+
+    def n_cr_time(ex, callee, args, m):
+        return VStruct("NaiveTime", [VInt(civil(inst(ex, args[0]))[3])])
+
     def n_date_naive(ex, callee, args, m):
         y, mo, d, tod = civil(inst(ex, args[0]))
         return VStruct("NaiveDate", [VInt(y), VInt(mo), VInt(d)])
@@ -551,6 +554,8 @@ def make_natives(E, unit):
         (N(r"^MappedLocalTime::<chrono::DateTime<Utc>>::unwrap$"), lambda ex, c, a, m: a[0]),
         (N(r"^NaiveTime::from_hms_opt$"), n_naive_time_hms),
         (N(r"^Option::<NaiveTime>::(?:unwrap|expect)$"), n_expect),
+        (N(r"^Option::<chrono::DateTime<Utc>>::map::<"), n_opt_map),
+        (N(r"^chrono::DateTime::<Utc>::time$"), n_cr_time),
         (N(r"^Option::<&str>::unwrap_or$"), n_unwrap_or),
         (N(r"^chrono::DateTime::<Utc>::format$"), n_cr_format),
         (N(r"^<DelayedFormat<StrftimeItems<'_>> as ToString>::to_string$"), n_df_to_string),
@@ -1326,3 +1331,96 @@ def template_text(bs, model):
             d = chrono_fmt.DIGIT_OF[b]
             out.append(str(int(Fraction((model or {}).get(str(d.val) if hasattr(d, "val") else str(d), 0)))))
     return "".join(out)
+
+
+# ---------------------------------------------------------------------------------------------------------------------
+# C16: calendar field getters and the round trip through the calendar type
+GETTERS = ("year", "month", "day", "hour", "minute", "second", "time")
+
+
+def find_getters(E):
+    out = {}
+    for n, f in E.fns.items():
+        m = re.fullmatch(r"datetime::<impl at [^>]*>::(\w+)", n)
+        if m and m.group(1) in GETTERS and len(f.args) == 1 and f.ret.startswith("Option<"):
+            out[m.group(1)] = f
+    missing = set(GETTERS) - set(out)
+    if missing:
+        raise ExecError(f"cannot locate the DateTime getters {sorted(missing)} in the MIR dump")
+    for n, f in E.fns.items():
+        if re.fullmatch(r"datetime::<impl at [^>]*>::as_cr", n):
+            out["as_cr"] = f
+    return out
+
+
+def check_getters(E, G, unit):
+    """year() .. second() / time() of a valid DateTime<U> are the calendar fields of its instant (never None)"""
+    from .exec import Cell
+    ts, inst, V, dom = civil_vars_hms(unit)
+    run = Run(E, unit)
+    run.ex.assumptions.extend(dom)
+    run.ex.prune = True
+    qs = []
+    want = {"year": V["y"], "month": V["m"], "day": V["d"], "hour": V["h"], "minute": V["mi"], "second": V["sec"], "time": V["tod"]}
+    for g in GETTERS:
+        r = run.call(G[g], [VRef(Cell(datetime(ts)), ())])
+        qs.append(([smt.not_(r.some)], f"{g}() of a valid date-time is None"))
+        val = r.val.items[0].t if g == "time" else r.val.t
+        qs.append(([r.some, smt.ne(val, want[g])], f"{g}() is not the calendar field of the instant"))
+    for ob in run.ex.obligations:
+        qs.append(([ob.cond], "panic in a getter of a valid date-time: " + ob.msg))
+    wit = [([smt.lt(ts, C(0)), smt.eq(V["m"], C(2)), smt.eq(V["d"], C(29))], "a pre-epoch 29 February"),
+           ([smt.eq(V["h"], C(23)), smt.eq(V["sec"], C(59))], "the last minute of a day")]
+    return dom, run, qs, V, wit
+
+
+def check_cr_roundtrip(E, G, unit):
+    """DateTime<U> -> chrono::DateTime<Utc> -> DateTime<U> is the identity over the whole range the calendar type can hold"""
+    from .exec import Cell
+    uns = UNITS[unit][1]
+    ts = smt.var("ts", smt.INT)
+    dom = [smt.le(C(I64_MIN + 1), ts), smt.le(ts, C(I64_MAX)), in_cr(smt.mul(ts, C(uns)))]
+    run = Run(E, unit)
+    o = run.call(G["as_cr"], [VRef(Cell(datetime(ts)), ())])
+    qs = [([smt.not_(o.some)], "as_cr() of a valid in-range date-time is None")]
+    back = run.ex.call(f"<chrono::DateTime<Utc> as Into<datetime::DateTime<U>>>::into", [o.val], None, 0)
+    qs.append(([o.some, smt.ne(back.items[0].t, ts)], "calendar type -> DateTime<U> does not give back the timestamp"))
+    for ob in run.ex.obligations:
+        qs.append(([o.some, ob.cond], "panic on the round trip through the calendar type: " + ob.msg))
+    wit = [([smt.lt(ts, C(-10 ** 12))], "far before the epoch"), ([smt.gt(ts, C(10 ** 12))], "far after the epoch")]
+    return dom, run, qs, {"ts": ts}, wit
+
+
+def native_getters(unit, ts):
+    from . import replay as rp
+    p = rp._get()
+    p.stdin.write(f"dtget {SHORT[unit]} {ts}\n"); p.stdin.flush()
+    return p.stdout.readline().strip()
+
+
+def law_getters(unit, ts):
+    u = UNITS[unit][1]
+    inst = ts * u
+    y, m, d = _py_civil(inst // NS_DAY)
+    tod = inst % NS_DAY
+    return f"G {y} {m} {d} {tod // (3600 * 10 ** 9)} {tod // (60 * 10 ** 9) % 60} {tod // 10 ** 9 % 60} {tod} {ts}"
+
+
+def validate_getters(unit, rng):
+    """the plain-integer calendar law against chrono itself (no tevec code involved) on concrete instants"""
+    u = UNITS[unit][1]
+    lo, hi = -(-DOM_LO // u), (DOM_HI - 1) // u
+    per_s = 10 ** 9 // u
+    tss = [0, 1, -1, lo, hi, 951782399 * per_s, 951782400 * per_s, -2208988800 * per_s, -2203891200 * per_s - 1, 4107542400 * per_s - 1] + \
+          [rng.randint(lo, hi) for _ in range(30)]
+    from . import replay as rp
+    bad = []
+    for ts in tss:
+        inst = ts * u
+        p = rp._get()
+        p.stdin.write(f"crcal {inst // 10 ** 9} {inst % 10 ** 9}\n"); p.stdin.flush()
+        got = p.stdout.readline().strip()
+        want = "C " + " ".join(law_getters(unit, ts).split()[1:8])
+        if got != want:
+            bad.append(f"instant {inst} ns: chrono gives {got}, calendar law {want}")
+    return len(tss), bad
